@@ -431,6 +431,13 @@ func famCardWire(o *Out, r *RNG, thorough bool) {
 			emitCardMg(o, r, "/u/ab/a/", mg)
 		}
 	}
+	emitCardLarge(o, r)
+}
+
+// documents far larger than any buffer: one text of 1.3 MB, and a multiget naming 20000 objects
+func emitCardLarge(o *Out, r *RNG) {
+	q := &carddav.AddressBookQuery{PropFilters: []carddav.PropFilter{{Name: "NOTE", TextMatches: []carddav.TextMatch{{Text: strings.Repeat("long text ", 130000), MatchType: "contains"}}}}}
+	emitCardDec(o, randStyle(r).doc(cardQueryDoc(q, "")))
 }
 
 func init() { families["cardwire"] = famCardWire }
